@@ -23,6 +23,9 @@ compute_recession_curve (captured from outside).  Conductivities inside, at and 
 [1e-4, 1e5]; knot sets with a knot at exactly 0.0 (as the lowest, the second, a middle or the highest knot) and
 the levels 0.0 / -0.0; every array call keeps its array: it is compared bit-for-bit with a pristine copy
 afterwards, handed over a second time, also read-only and as non-contiguous views.
+Wave 5: adjacent knots whose conductivities differ by rounding only (near_cases: same oracle, two levels of each
+through Coq); ONE call with 1024-5000 levels against the scalar calls (check_long, oracle only); a new value given to
+minimum_transmissivity_m2_d on a live object (check_reassign: the unchanged code reads it at every call).
 """
 import math
 import os
@@ -283,7 +286,7 @@ def gen_zero_case(rng, k, nlev):
 
 
 CASE_KEYS = ('cls', 'zk', 'K', 'Tmin', 'levels', 'above', 'form')
-OPT_KEYS = ('via', 'texts', 'str_typed', 'coq_max')
+OPT_KEYS = ('via', 'texts', 'str_typed', 'coq_max', 'coq_levels')
 
 
 def jcase_of(c):
@@ -366,6 +369,8 @@ def check_cases(cases, out, label):
         # Coq encloses every level of the original classes and an even share of the levels of the added ones (the
         # oracle judges all of them)
         coq_levels = set(lv) if cm is None else {lv[(2 * i + 1) * len(lv) // (2 * cm)] for i in range(cm)} | {zk[-1]}
+        if c.get('coq_levels') is not None:
+            coq_levels = set(c['coq_levels'])
         z0, zn = zk[0], zk[-1]
         kmin, kmax = min(K), max(K)
         knots_lit = H.cRpairs(zk, K)
@@ -530,6 +535,184 @@ def check_history(rng, count, out):
         gc.collect()
 
 
+# ------------------------------------------------------------- neighbouring conductivities (wave 5)
+
+def near_cases(seed, tier):
+    """Two ADJACENT knots whose conductivities differ by rounding only (a decimal next to the same number as float
+    arithmetic produces it, 1-3 ulps apart, ratios 1 +- 1e-15 .. 1e-6): the logarithmic slope of that segment is a
+    quotient of two tiny differences.  Levels one ulp below, at and one ulp above the upper knot of the pair, inside
+    the segment above it, at the highest knot; the pair's segment is mostly the thick, conductive one (so that it
+    carries a visible share of the transmissivity).  Through Coq: the upper knot of the pair and the highest knot."""
+    cases = []
+    up, dn = (lambda x: math.nextafter(x, math.inf)), (lambda x: math.nextafter(x, -math.inf))
+    for k in range(len(H.NEAR_KINDS) * (1 if tier == 'quick' else 4)):
+        rng = C.rng_for(seed, PROP, 'near', k)
+        kind = H.NEAR_KINDS[k % len(H.NEAR_KINDS)]
+        n = rng.choice([2, 3, 4, 5, 6])
+        i = rng.randrange(0, n - 1)
+        while True:
+            zk = H.gen_knots(rng, n)
+            if k % 3 == 2 or zk[i + 1] - zk[i] >= 5.0:
+                break
+        Ka, Kb = H.rounding_neighbour(rng, kind)
+        if k % 4 == 3:
+            K = H.gen_conductivities(rng, n, 'random')
+        else:
+            K = [H.round_sig(H.loguniform(rng, 1e-4, max(1e-3, 0.1 * min(Ka, Kb))), 3) for _ in range(n)]
+        K[i], K[i + 1] = Ka, Kb
+        Tmin = H.round_sig(H.loguniform(rng, 1e-4, 1e2), rng.choice([2, 4]))
+        z0, zn, u = zk[0], zk[-1], zk[i + 1]
+        levels = H.levels_for(rng, zk, 7)
+        levels += [dn(u), u, zn, dn(zn), 0.5 * (zk[i] + u), zk[i], up(zk[i])]
+        if u < zn:
+            levels += [up(u), 0.5 * (u + zk[i + 2]), u + 1e-3 * (zk[i + 2] - u)]
+        levels = [z for j, z in enumerate(levels) if z <= zn and z not in levels[:j]]
+        above = [up(zn), zn + 1e-3 * (zn - z0), zn + 0.7 * (zn - z0) + 1.0]
+        rng.shuffle(above)
+        cases.append(dict(cls='near-equal/' + kind, zk=zk, K=K, Tmin=Tmin, levels=levels, above=above[:2],
+                          form=rng.choice(['float', 'np']), via=('class', 'factory')[k % 2],
+                          coq_levels=sorted({u, zn})))
+    return cases
+
+
+# ------------------------------------------------------------- one long array of levels (wave 5, oracle only)
+
+def long_cases(seed, tier):
+    """ONE call with an array (ndarray / list / tuple / generator-free iterable) of 1024-5000 levels drawn from a pool
+    of ~100 distinct levels of the knot range (at, beside and between the knots, below the lowest knot), sizes at and
+    past 1024 / 2048 / 4096 and not a multiple of a block size, shuffled / ascending / descending / a slow wave;
+    unless sorted, levels with a large transmissivity sit around indices 1000, 1024, 2048, 3072, 4096."""
+    cases = []
+    bands = [0, 1, 2] if tier == 'quick' else [0, 1, 2, 3, 0, 1, 2, 0, 1]
+    for k, band in enumerate(bands):
+        rng = C.rng_for(seed, PROP, 'long', k)
+        c = gen_case(rng, k + seed, 9)
+        zk = c['zk']
+        z0, zn = zk[0], zk[-1]
+        pool = set(H.levels_for(rng, zk, 60)) | {z0 + (zn - z0) * j / 31.0 for j in range(32)}
+        pool |= {z0 - 1.0, z0 - 250.0}
+        pool = sorted(z for z in pool if z <= zn)
+        high = [zn, math.nextafter(zn, -math.inf), 0.5 * (zk[-2] + zn), zk[-2] if len(zk) > 2 else 0.5 * (z0 + zn)]
+        order = H.LONG_ORDERS[(seed + k) % len(H.LONG_ORDERS)]
+        cases.append(dict(level='long', cls='long/' + c['cls'], zk=zk, K=c['K'], Tmin=c['Tmin'], order=order,
+                          form=('ndarray', 'list', 'ndarray', 'tuple')[(seed + k) % 4],
+                          levels=H.long_array_from_pool(rng, pool, H.long_size(rng, band), order, high)))
+    return cases
+
+
+def check_long(cases, out):
+    for c in cases:
+        zk, K, Tmin, lv = c['zk'], c['K'], c['Tmin'], c['levels']
+        n = len(lv)
+        tail = 'knots=%s K=%s Tmin=%r' % (zk, K, Tmin)
+        st, T = build(zk, K, Tmin)
+        if st == 'err':
+            out.violation('oracle', 'a spline transmissivity is refused (%s): %s' % (T, tail), case=c)
+            continue
+        out.count('long:n>%d:%s:%s' % (max(b for b in (0,) + H.BLOCK_BOUNDARIES if n > b or b == 0), c['order'], c['form']))
+        vals, ok = {}, True
+        for z in sorted(set(lv)):
+            out.evaluations += 1
+            st, v = call(T, float(z))
+            want = ref_value(zk, K, Tmin, z)
+            if st == 'err' or not close(float(v), want):
+                out.violation('oracle', 'transmissivity at level %r: %s %r, minimum + integral of the log-linear '
+                              'conductivity is %r: %s' % (z, st, v, want, tail), case=dict(c, levels=[z]))
+                ok = False
+                break
+            vals[z] = float(v)
+        if not ok:
+            continue
+        arg = {'ndarray': np.array, 'list': list, 'tuple': tuple}[c['form']](lv)
+        pristine = arg.tobytes() if isinstance(arg, np.ndarray) else repr(arg)
+        st, arr = call(T, arg)
+        out.evaluations += n
+        if (arg.tobytes() if isinstance(arg, np.ndarray) else repr(arg)) != pristine:
+            out.violation('oracle', 'the caller\'s levels (one %s of %d levels) were modified by the call: %s'
+                          % (c['form'], n, tail), case=c)
+            continue
+        if st == 'err' or np.shape(arr) != (n,):
+            out.violation('oracle', 'ONE call with a %s of %d levels at or below the highest knot (%s): %s' % (
+                c['form'], n, c['order'], ('refused (%s)' % arr) if st == 'err' else 'answer of shape %r' % (np.shape(arr),))
+                + ': ' + tail, case=c)
+            continue
+        got = [float(x) for x in arr]
+        bad = [i for i in range(n) if got[i] != vals[lv[i]]]
+        if bad:
+            i = bad[0]
+            out.violation('oracle', 'ONE call with a %s of %d levels (%s): element %d, level %r, is %r; the scalar call at '
+                          'that level gives %r (%d elements differ, at indices %r): %s'
+                          % (c['form'], n, c['order'], i, lv[i], got[i], vals[lv[i]], len(bad), bad[:8], tail), case=c)
+            continue
+        if not (isinstance(arr, np.ndarray) and arr.dtype == np.float64):
+            out.violation('oracle', 'array path does not return a float64 array', case=c)
+        if c['order'] in ('ascending', 'descending'):
+            seq = got if c['order'] == 'ascending' else got[::-1]
+            for i, (a, b) in enumerate(zip(seq, seq[1:])):
+                if b < a - (2 * REL * max(abs(a), abs(b)) + 2 * ABS):
+                    out.violation('oracle', 'the values of a sorted array of %d levels are not monotone at element %d '
+                                  '(%r then %r): %s' % (n, i, a, b, tail), case=c)
+                    break
+        out.nontriv(('long', tuple(zk), n, c['order']))
+
+
+# ------------------------------------------------------------- an attribute given a new value on a live object (wave 5)
+
+def reassign_cases(seed, tier):
+    """SplineTransmissivity reads minimum_transmissivity_m2_d (a documented attribute, in __slots__) at every call:
+    a function whose minimum is given a new value (a calibration loop) is the function with that minimum."""
+    cases = []
+    for k in range(6 if tier == 'quick' else 40):
+        rng = C.rng_for(seed, PROP, 'reassign', k)
+        c = gen_case(rng, k, 7)
+        news = [H.round_sig(c['Tmin'] * rng.choice([10.0, 0.1, 3.0]), 3), H.round_sig(H.loguniform(rng, 1e-4, 1e5), 3),
+                c['Tmin']]
+        cases.append(dict(level='reassign', zk=c['zk'], K=c['K'], Tmin=c['Tmin'], news=news, levels=c['levels']))
+    return cases
+
+
+def check_reassign(cases, out):
+    for c in cases:
+        zk, K = c['zk'], c['K']
+        st, T = build(zk, K, c['Tmin'])
+        if st == 'err':
+            continue
+        cur, history = c['Tmin'], []
+        for new in [None] + list(c['news']):
+            if new is not None:
+                try:
+                    T.minimum_transmissivity_m2_d = new
+                except AttributeError:
+                    out.count('reassign:refused')      # a function that cannot be given a new minimum answers nothing wrongly
+                    break
+                history.append(new)
+                cur = new
+                out.count('reassign:minimum_transmissivity_m2_d')
+            st2, fresh = build(zk, K, cur)
+            who = ('spline transmissivity built with minimum %r%s (knots=%s K=%s)'
+                   % (c['Tmin'], ''.join(', then minimum_transmissivity_m2_d = %r' % h for h in history), zk, K))
+            ok = True
+            for z in c['levels']:
+                out.evaluations += 1
+                a, b = call(T, float(z)), call(fresh, float(z))
+                want = ref_value(zk, K, cur, z)
+                if a[0] == 'err' or not close(float(a[1]), want) or a != b:
+                    out.violation('oracle', '%s gives %s %r at level %r; its attributes say minimum %r: minimum + integral '
+                                  'is %r, a function freshly built with these attributes gives %s %r'
+                                  % (who, a[0], a[1], z, cur, want, b[0], b[1]), case=c)
+                    ok = False
+                    break
+            if ok:
+                a, b = call(T, np.array(c['levels'], dtype=float)), call(fresh, np.array(c['levels'], dtype=float))
+                out.evaluations += 1
+                if a[0] == 'err' or b[0] == 'err' or [float(x) for x in a[1]] != [float(x) for x in b[1]]:
+                    out.violation('oracle', '%s: array call gives %s %s, a function freshly built with the same attributes '
+                                  'gives %s %s' % (who, a[0], a[1], b[0], b[1]), case=c)
+                    ok = False
+            if not ok:
+                break
+
+
 def check_malformed(cases, out, label):
     goals, meta = [], []
     for c in cases:
@@ -562,7 +745,10 @@ def run(ctx, out):
     cases += [gen_extra_case(rx, k, nlev) for k in range(9 if tier == 'quick' else 48)]
     cases += [gen_zero_case(rz, k, nlev) for k in range(8 if tier == 'quick' else 48)]
     cases += [gen_str_case(rs, k, nlev) for k in range(3 if tier == 'quick' else 12)]
+    cases += near_cases(seed, tier)
     check_cases(cases, out, 'fl')
+    check_long(long_cases(seed, tier), out)
+    check_reassign(reassign_cases(seed, tier), out)
     check_malformed(malformed_cases(rng, 12 if tier == 'quick' else 60), out, 'malformed')
     check_history(C.rng_for(seed, PROP, 'history'), 40 if tier == 'quick' else 300, out)
     out.rule = ('(knot set, level) pairs through SplineTransmissivity: 2-8 knots with spacings 0.5-500 mm, '
@@ -580,7 +766,17 @@ def run(ctx, out):
                 'second, middle, highest) incl. a long quiet segment below it and a narrow steep one above it, '
                 'levels 0.0 and -0.0; one number of the text written like 1e-05 (a string for YAML 1.1: refusal '
                 'or the right value). Every float64 array handed over is kept, compared bit-for-bit afterwards '
-                'and handed over a second time (writable, read-only, strided, reversed view).')
+                'and handed over a second time (writable, read-only, strided, reversed view). Wave 5 (own random '
+                'streams): two ADJACENT knots whose conductivities differ by rounding only (0.3 next to 0.1 * 3, 1-3 '
+                'ulps, ratios 1 +- 1e-15 .. 1e-6; mostly on the thick conductive segment) with levels one ulp below / '
+                'at / one ulp above the upper knot of the pair - every level through the oracle (value, monotone, '
+                'increments), the upper knot of the pair and the highest knot through Coq; ONE call with an ndarray / '
+                'list / tuple of 1024-5000 levels (exactly 1024, and sizes past 1024 / 2048 / 4096 that are no multiple '
+                'of a block size; shuffled / ascending / descending / a slow wave; large values planted around indices '
+                '1000, 1024, 2048, 3072, 4096) compared element by element with the scalar calls - ORACLE ONLY, '
+                'nothing of that size is sent to Coq; minimum_transmissivity_m2_d (read at every call by the unchanged '
+                'code) given new values on a live object: afterwards the function equals a freshly built one with the '
+                'same attributes and its own minimum + integral.')
     out.samples = [dict(knots=c['zk'], K=c['K'], Tmin=c['Tmin'], levels=c['levels'][:4]) for c in cases[:3]]
     out.assumptions += [
         'scipy.integrate.quad (QUADPACK) is an oracle: "evaluates the integrand strictly inside the interval and '
@@ -598,5 +794,9 @@ def replay(case, out):
         check_history(C.rng_for(0, PROP, 'history'), 60, out)
     elif case.get('level') == 'malformed':
         check_malformed([case], out, 'replay')
+    elif case.get('level') == 'long':
+        check_long([case], out)
+    elif case.get('level') == 'reassign':
+        check_reassign([case], out)
     else:
-        check_cases([{k: v for k, v in case.items() if k != 'coq_max'}], out, 'replay')    # every level through Coq
+        check_cases([{k: v for k, v in case.items() if k not in ('coq_max', 'coq_levels')}], out, 'replay')    # every level through Coq
